@@ -38,6 +38,11 @@ Recorded assumptions about encoding/xml (observed by the harness on every case, 
             finite list of iterations plus the way it ends;
   (sticky)  after a syntax or reader error every later Token() returns that error again: an `entryErr`
             caused by malformed input is followed at once by `err`  (`Sticky`);
+            A THIRD behaviour exists for errors that are not syntax errors (an attribute value the
+            unmarshaller cannot type, e.g. `version="x"`): DecodeElement fails without consuming the element,
+            the decoder goes on, and — encoding/xml keeps an internal end-of-element marker on its stack —
+            Token() answers io.EOF right after that entry's end tag: one error, then a FAKE end of input, the
+            rest of the stream is never read (`nonsticky` in the class tags; the trace shows it as it is);
   (reports) a stream that is cut or corrupted after its first element has begun makes Token or
             DecodeElement return an error (inside an open element the end of input is `unexpected EOF`);
   DecodeElement consumes through the matching end tag or returns an error.
